@@ -37,6 +37,13 @@ type Opts struct {
 	Wipe bool
 	// Reposition[a], when set, is given to SetBinlogPosition before attempt a (a > 0)
 	Reposition map[int]ref.Position
+	// Deadline > 0: the caller's context carries a deadline that far ahead;
+	// ErrorAfterDeadline: Error() is asked only after that deadline has passed
+	// (Outcome.InTime tells whether Stream had returned before it)
+	Deadline           time.Duration
+	ErrorAfterDeadline bool
+	// DSNParams is appended to the data source name ("?loc=...&parseTime=true")
+	DSNParams string
 	// HungAfter: seconds after which an attempt that has not returned counts as hung (default 60)
 	HungAfter int
 	// Nest is called inside every handler call (with the index of the delivery)
@@ -78,6 +85,7 @@ type Outcome struct {
 	Master      *simmaster.Master
 	Mapper      *hx.Mapper
 	Hung        bool
+	InTime      []bool       // per attempt: Stream returned before the deadline of its context
 	Clients     []*nmem.Conn // client ends of the in-memory connections, in dial order
 }
 
@@ -202,7 +210,7 @@ func Start(h *ref.History, o Opts) *Runner {
 			}
 		}()
 	}
-	st, err := gobinlog.NewStreamer(dsn, o.ServerID, mapper)
+	st, err := gobinlog.NewStreamer(dsn+o.DSNParams, o.ServerID, mapper)
 	if err != nil {
 		chk.Fatalf("NewStreamer: %v", err)
 	}
@@ -280,10 +288,21 @@ func (r *Runner) Attempt() bool {
 		done := make(chan struct{})
 		var serr, e1 error
 		var pan string
+		inTime := true
 		go func() {
 			defer close(done)
 			pan = chk.Catch(func() {
-				serr = st.Stream(context.Background(), handler)
+				ctx := context.Background()
+				if o.Deadline > 0 {
+					var cancel context.CancelFunc
+					ctx, cancel = context.WithTimeout(ctx, o.Deadline)
+					defer cancel()
+				}
+				serr = st.Stream(ctx, handler)
+				inTime = ctx.Err() == nil
+				if o.ErrorAfterDeadline && o.Deadline > 0 {
+					<-ctx.Done()
+				}
 				e1 = st.Error()
 			})
 		}()
@@ -300,6 +319,7 @@ func (r *Runner) Attempt() bool {
 		out.StreamErr = append(out.StreamErr, serr)
 		out.StreamPanic = append(out.StreamPanic, pan)
 		out.Err1 = append(out.Err1, e1)
+		out.InTime = append(out.InTime, inTime)
 	}
 	return true
 }
